@@ -355,6 +355,74 @@ def read_then_parse_rule(rep, prog, cfg):
                                   "successful read is mistaken for the end of the stream while received bytes are still unparsed" % n)
 
 
+SLICE_READS = {"std::io::Read::read", "tokio::io::util::async_read_ext::AsyncReadExt::read"}
+
+
+def _term_has_call(t, names):
+    if not isinstance(t, tuple):
+        return False
+    if len(t) >= 2 and t[0] == "call" and t[1] in names:
+        return True
+    return any(_term_has_call(x, names) for x in t if isinstance(x, tuple))
+
+
+def valid_prefix_rule(rep, prog, cfg, rule="C02.valid-prefix", which=("blocking/connect", "blocking/receive", "async/connect", "async/receive")):
+    """A flavour that reads through a slice-based read (`Read::read(&mut buf[n..])`) keeps a zero-padded buffer whose
+    length is not the number of bytes received.  There the parser may only be offered the valid prefix: the slice the
+    read helper returns, or the buffer after `split_off(<valid count>)`.  Offering the padded buffer makes the parser see
+    NUL bytes where 'need more' was due: a reply is then accepted or rejected depending on where a read ended."""
+    from .. import terms
+    from .C10 import GREETING, READS_EXT
+    lb = conn_bodies(prog)
+    for name in which:
+        b = lb.get(name)
+        if b is None or (cfg == "K3" and name.startswith("async")):
+            continue
+        helpers = {n for n in READS if n not in READS_EXT}
+        # is the flavour's read slice-based?
+        padded = False
+        for bb, t in b.calls():
+            ns = callee_names(t)
+            if any(n in SLICE_READS for n in ns):
+                padded = True
+            for n in ns:
+                if n in helpers:
+                    for hb in body_by_name(prog, n):
+                        for fb in family(prog, hb):
+                            if any(x in SLICE_READS for bb2, t2 in fb.calls() for x in callee_names(t2)):
+                                padded = True
+        pcalls = [(bb, t) for bb, t in b.calls() if PARSE in callee_names(t) or GREETING in callee_names(t)]
+        if not pcalls:
+            rep.fail(rule + ".anchor", "%s/%s" % (cfg, name), b.loc(b.span), "no parser call found in %s" % name)
+            continue
+        if not padded:
+            rep.ok(rule, "%s/%s append-based read: buffer length is the valid length" % (cfg, name), b.loc(b.span))
+            continue
+        g = Cfg(b)
+        for bb, t in pcalls:
+            is_builder = PARSE in callee_names(t)
+            arg = t["args"][1] if is_builder else t["args"][0]
+            al = op_local(arg)
+            term = terms.term_of_local(b, al, depth=12) if al is not None else None
+            from_helper = term is not None and _term_has_call(term, helpers)
+            split_ok = False
+            if not from_helper and al is not None:
+                f = ref_field_of_local(b, al)
+                if f is not None:
+                    for bb2, t2 in b.calls():
+                        if "bytes::bytes_mut::BytesMut::split_off" in callee_names(t2) and ref_field_of_local(b, op_local(t2["args"][0])) == f:
+                            at = terms.term_of_local(b, op_local(t2["args"][1])) if op_local(t2["args"][1]) is not None else ("const",)
+                            counted = at[0] == "field"
+                            between = [bb3 for bb3, t3 in b.calls() if any(n in ("bytes::bytes_mut::BytesMut::unsplit", "bytes::bytes_mut::BytesMut::resize")
+                                                                            for n in callee_names(t3)) and g.dom(bb2, bb3) and g.dom(bb3, bb) and bb3 != bb]
+                            if counted and g.dom(bb2, bb) and not between:
+                                split_ok = True
+            rep.check(from_helper or split_ok, rule, "%s/%s parser sees only received bytes" % (cfg, name), b.loc(b.blocks[bb]["ts"]),
+                      "%s reads through a slice-based read into a zero-padded buffer, but the parser is given `%s`: neither the slice returned by the read "
+                      "helper nor the buffer cut at the received count; it would see padding bytes as input" % (name, terms.show(terms.canon(term)) if term else "?"))
+
+
+
 def run(rep, progs, tier):
     rep.explanation = (
         "Rule-based static analysis (no execution). Decided clauses: (a) only streaming nom combinators "
@@ -372,6 +440,7 @@ def run(rep, progs, tier):
     rep.rule("C02.persist", "receive buffer/byte count are connection fields written only by connect/receive; same buffer read and parsed; never cleared by receive")
     rep.rule("C02.resize-fresh", "resize lengths derive from a fresh len() of the same buffer in the same loop iteration")
     rep.rule("C02.read-then-parse", "no cycle through a read avoids the parser; read helpers read once per call")
+    rep.rule("C02.valid-prefix", "with a slice-based read (zero-padded buffer) the parser is given the helper's returned slice or the buffer cut at the received count")
     rep.rule("C02.siblings", "both receive flavours loop parse->read->EOF over the shared builder")
     rep.trusted = ["rustc MIR construction", "mpdfacts exporter", "nom 7 streaming combinator semantics", "bytes::BytesMut semantics"]
     rep.assume("blocking-connection buffer arithmetic (total_received <= recv_buf.len(), content preservation of split_off/unsplit) is not decided")
@@ -383,3 +452,4 @@ def run(rep, progs, tier):
         resize_rule(rep, prog, cfg)
         siblings_rule(rep, prog, cfg)
         read_then_parse_rule(rep, prog, cfg)
+        valid_prefix_rule(rep, prog, cfg)
